@@ -30,6 +30,20 @@ def build_pool(seed, n):
     extra = ["x = p'/a' / pf'{b}'\n", "f!(a, b)\nwith! c:\n    d e\nx = 1\n", "$(echo! a b)\ny = 2\n", "x = f'{a!r:>{w}}' 'tail'\n", "range?\n", "f!(]\n", "with! x:\n", "f!(a,, b)\n",
              "$(echo a.b?)\n", "x = 'a' b'b'\n", "if a:\n  b\n c\n", "x = (\n", "x = '''a\n", "é = 'ü'\n", "try:\n    pass\nexcept* A:\n    pass\n", "type X[T] = list[T]\n"]
     pool += extra
+    # literal families that share tokenizer/parser lookup keys (quote style, prefix letters) but differ in the other dimensions:
+    # any module-level cache keyed too coarsely makes their outcome depend on which one was seen first
+    bodies = ["\\N{BULLET}{a}", "{a}\\d+", "a{{b}}{c}", "{a:>{w}}", "\\n{a!r}", "{a}", "\\N{z}"]
+    for q in ("'", '"', "'''", '"""'):
+        for pre in ("f", "rf", "fr", "F", "Rf", "pf", "fp"):
+            for body in bodies:
+                pool.append(f"x = {pre}{q}{body}{q}\n")
+        for pre in ("", "r", "b", "rb", "u", "p", "pr", "R", "Br"):
+            for body in ("a\\n", "\\d", "\\x41" if "b" in pre.lower() else "\\N{BULLET}", "it"):
+                pool.append(f"y = {pre}{q}{body}{q}\n")
+    for sp in ("`a*`", "g`*.py`", "r`\\d+`", "p`x`", "f`{a}`", "@foo`bar`", "rp`q`"):
+        pool.append(f"z = {sp}\n")
+    for num in ("0x1F", "0o17", "0b11", "1_000", "1e5", "1.5j", "0X1f", "1E5", "1J"):
+        pool.append(f"n = {num}\n")
     while len(pool) < n:
         s = rnd.choice(pool[:200])
         pool.append(gen_xonsh.char_edits(rnd, s, rnd.randint(1, 2)) if rnd.random() < 0.6 else s + rnd.choice(pool[:200]))
@@ -292,7 +306,7 @@ def run_shard(shard):
 
 def plan(tier, seed):
     q = tier == "quick"
-    pool = 300 if q else 1500
+    pool = 650 if q else 2000
     shards = []
     for i in range(10 if q else 50):
         shards.append({"kind": "history", "seed": seed, "idx": i, "pool": pool, "histories": 2 if q else 4, "length": 500})
